@@ -130,21 +130,17 @@ def run(ctx):
         o = ordering_name(f.op_origin(lt["args"][1]))
         ctx.check(o in ("Acquire", "SeqCst"), "R12.2", "%s|load-ordering" % key,
                   "flag load ordering must be Acquire or stronger (found %s)" % o, f.where(lbb))
-        # waker registration
-        reg = []
-        for (b, i, tgt, rv, s) in f.stores():
-            base, names = field_path(tgt)
-            if lock_of_field(tgt, WAKER):
-                reg.append((b, i, rv))
+        # waker registration (on symbolic paths: the store may sit in a `WakerState::register(&mut self, waker)` helper)
+        spaths = ipaths(F, f, stop=lambda n: False, depth=3)
+        reg = [(tgt, rv) for p_ in spaths for tgt, rv, w in p_.stores if lock_of_field(tgt, WAKER)]
         ok_val = True
-        for b, i, rv in reg:
+        for tgt, rv in reg:
             good = rv[0] == "agg" and rv[2] == "Some" and mentions(rv, lambda s: is_call_to(s, "std::task::Context::<'a>::waker"))
             ok_val = ok_val and good
         ctx.check(bool(reg) and ok_val, "R12.3", "%s|registers-current-waker" % key,
                   "poll stores Some(clone of the current context's waker) into the waker slot", f.where())
         # on every symbolic path (closures and combinators inlined) the flag load is preceded by a registration into the
         # slot or by will_wake(slot's waker, current waker) having been true; nothing is registered after the load
-        spaths = ipaths(F, f, stop=lambda n: False, depth=2)
         bad_before, bad_after, n_load = [], [], 0
         for p in spaths:
             lp = [e.seq for e in p.events if e.fn is f and e.bb == lbb]
